@@ -518,7 +518,7 @@ def run(tier, is_known):
                               ("api", 5 if thorough else 3, USED), ("req", 4 if thorough else 3, USED)):
         ad = AclOps(mode, init=init)
         try:
-            r = engine.bfs(ad, depth, state_budget=200000, time_budget=1200 if thorough else 40, is_known=is_known)
+            r = engine.bfs(ad, depth, state_budget=200000, time_budget=1200 if thorough else 240, is_known=is_known)
         except engine.HarnessError as e:
             if not viols:
                 raise
